@@ -310,6 +310,11 @@ class Check:
             self.violations.append((key, desc, path))
         return True
 
+    def vacuity(self, bad, msg):
+        """a coverage floor was missed: machinery failure - unless violations were found (then they are the news)"""
+        if bad and not self.violations:
+            raise MachineryError("vacuity: " + msg)
+
     def finish(self):
         wall = time.time() - self.t0
         ev = {"property_id": self.pid, "tier": self.tier, "seed": seed(), "level": self.level,
